@@ -12,12 +12,12 @@ import (
 )
 
 type chainModel struct {
-	w                                          *World
-	rHandlers, rGroup, rNoRoute, rNoAllowed    *types.Var // Router.*
-	rPrefix                                    *types.Var
-	rtHandlers, rtHandler                      *types.Var // Route.*
-	cHandlers, cIndex                          *types.Var // Context.*
-	abortIndex                                 int64
+	w                                       *World
+	rHandlers, rGroup, rNoRoute, rNoAllowed *types.Var // Router.*
+	rPrefix                                 *types.Var
+	rtHandlers, rtHandler                   *types.Var // Route.*
+	cHandlers, cIndex                       *types.Var // Context.*
+	abortIndex                              int64
 }
 
 func newChainModel(w *World) *chainModel {
@@ -118,7 +118,12 @@ func ruleC04Seq(r *Run) {
 	for _, f := range w.Funcs {
 		for fv, fname := range allowedFields {
 			for i, st := range storesToField(f, fv) {
-				base := canon(st.Addr.(*ssa.FieldAddr).X)
+				base := ""
+				for _, lf := range valueLeaves(st.Addr) {
+					if fa, ok := lf.(*ssa.FieldAddr); ok && fieldVar(fa.X.Type(), fa.Field) == fv {
+						base = canon(fa.X)
+					}
+				}
 				alts, why := e.at(f, st, st.Val)
 				construct := fmt.Sprintf("%s:store %s#%d", FuncName(f), fname, i+1)
 				if why != "" {
@@ -130,6 +135,9 @@ func ruleC04Seq(r *Run) {
 				shapes := distinctSeqs(alts)
 				for _, alt := range alts {
 					v := alt.Val
+					if fa, isFA := resolvePhi(st.Addr, alt.Path).(*ssa.FieldAddr); isFA && fieldVar(fa.X.Type(), fa.Field) != fv {
+						continue // on this path the selected address is another field's (checked under that field)
+					}
 					if v.Unknown != "" {
 						// whole-struct copies (copyWithParams, Copy) assign the field through a struct store, not here
 						ok, detail = false, "cannot evaluate the stored chain: "+v.Unknown
@@ -574,7 +582,7 @@ func hasLimitCheck(w *World, m *chainModel, f *ssa.Function, st *ssa.Store, stor
 		matches := sameSum(x, lens)
 		if !matches {
 			// len(<load of the stored field>) evaluated after the store
-			fa := st.Addr.(*ssa.FieldAddr)
+			fa := fieldAddrOf(st)
 			fv := fieldVar(fa.X.Type(), fa.Field)
 			if call, ok := bo.X.(*ssa.Call); ok && isBuiltin(call, "len") && isLoadOfField(call.Call.Args[0], fv) {
 				if ld, ok := call.Call.Args[0].(ssa.Instruction); ok && dominates(st, ld) {
@@ -737,7 +745,7 @@ func ruleC12Bracket(r *Run) {
 			}
 			cl := mc.Fn.(*ssa.Function)
 			for _, st := range storesToField(cl, fd.fv) {
-				if canon(st.Addr.(*ssa.FieldAddr).X) != canon(grp.Params[0]) {
+				if canon(fieldAddrOf(st).X) != canon(grp.Params[0]) {
 					continue
 				}
 				if ld, ok := st.Val.(*ssa.UnOp); ok {
@@ -869,14 +877,30 @@ func ruleC12CopyUse(r *Run) {
 		}
 		return (b.Op == token.NEQ && truth) || (b.Op == token.EQL && !truth)
 	}
-	for i, st := range storesToField(use, m.rGroup) {
-		ok := factHolds(st, prefixNonEmpty)
-		r.Check("C12-USE", fmt.Sprintf("(*Router).Use:group branch#%d", i+1), w.InstrPos(st), ok, map[bool]string{true: "the group list is extended only inside a group (prefix != \"\")", false: "Use extends the group list outside a group scope"}[ok])
-	}
-	for i, st := range storesToField(use, m.rHandlers) {
-		ok := factHolds(st, func(c ssa.Value, t bool) bool { return prefixNonEmpty(c, !t) })
-		r.Check("C12-USE", fmt.Sprintf("(*Router).Use:global branch#%d", i+1), w.InstrPos(st), ok, map[bool]string{true: "the global list is extended only outside a group (prefix == \"\")", false: "Use inside a group leaks into the global middleware list"}[ok])
-	}
+	// the stores of Use, also through a selected field address (target := &r.handlers / &r.currentGroupHandlers)
+	ng, nh := 0, 0
+	eachInstr(use, func(in ssa.Instruction) {
+		st, isSt := in.(*ssa.Store)
+		if !isSt {
+			return
+		}
+		phiLeaves(st.Addr, st, func(leaf ssa.Value, fact factOracle) {
+			fa, isFA := leaf.(*ssa.FieldAddr)
+			if !isFA {
+				return
+			}
+			switch fieldVar(fa.X.Type(), fa.Field) {
+			case m.rGroup:
+				ng++
+				ok := fact(prefixNonEmpty)
+				r.Check("C12-USE", fmt.Sprintf("(*Router).Use:group branch#%d", ng), w.InstrPos(st), ok, map[bool]string{true: "the group list is extended only inside a group (prefix != \"\")", false: "Use extends the group list outside a group scope"}[ok])
+			case m.rHandlers:
+				nh++
+				ok := fact(func(c ssa.Value, t bool) bool { return prefixNonEmpty(c, !t) })
+				r.Check("C12-USE", fmt.Sprintf("(*Router).Use:global branch#%d", nh), w.InstrPos(st), ok, map[bool]string{true: "the global list is extended only outside a group (prefix == \"\")", false: "Use inside a group leaks into the global middleware list"}[ok])
+			}
+		})
+	})
 	// inside every Group callback the scope marker (the prefix) has been extended: Use relies on it
 	grpFn := w.Fn("rux", "Router.Group")
 	var cbIn ssa.Instruction
@@ -941,7 +965,7 @@ func ruleC12CopyUse(r *Run) {
 func init() {
 	register(&property{
 		Meta: propertyMeta{
-			ID: "C04",
+			ID:          "C04",
 			Explanation: "(C04-SEQ) path-sensitive sequence-shape evaluation (E-SEQ) of every chain-typed value at its sink: on every path of the dispatcher the argument of SetHandlers is global ++ route middleware ++ [main handler], global ++ not-allowed chain or global ++ not-found chain (defaults only when the configured chain is empty), with the global list read at request time; every store into Route.handlers, Router.currentGroupHandlers, Router.handlers, noRoute, noAllowed is 'existing list, then the new middleware' / 'group list, then the route's own' (combineHandlers is evaluated from its body: make + two copies). (C04-CURSOR) the cursor is written only with -1 where a request starts, the sentinel, or index+1; exactly one place invokes handlers[index], in a loop guarded by index < len(handlers), every path to the call and between two calls passes index+1, and after a handler returns the loop can only end through the guard: each handler at most once, in order, automatically continued. (C04-VERBS) every verb helper attaches its variadic middleware to the route it registers.",
 			NotDecided:  []string{"that code after Next() runs in reverse order (consequence of Go's call stack plus C04-CURSOR; argued)", "response bodies", "behaviour of user handlers that replace the chain through the exported SetHandlers mid-request"},
 			Assumptions: []string{"handlers do not call SetHandlers/Reset on their own context mid-chain", "go/ssa lowering of append / composite literals / copy"},
@@ -950,7 +974,7 @@ func init() {
 	})
 	register(&property{
 		Meta: propertyMeta{
-			ID: "C05",
+			ID:          "C05",
 			Explanation: "(C05-SENTINEL) Abort/AbortThen/AbortWithStatus store the one sentinel constant into the cursor on every path; AbortWithStatus records the caller's status on every path; IsAborted is index >= sentinel; Copy parks the copy. (C05-NOSKIP) the executor's loop condition re-reads the cursor after every handler call, abort functions do not unwind, and (C04-CURSOR) the cursor only moves forward, so a parked cursor ends every enclosing loop while suspended callers resume. (C05-LIMIT) every list that becomes part of an executed chain must be bounded below the sentinel where it grows and the executed sum must be covered.",
 			NotDecided:  []string{"the response status after AbortWithStatus once something was committed (C08's machine plus run-time order)", "user handler behaviour"},
 			Assumptions: []string{"handlers do not write the unexported cursor (they cannot: other package)"},
@@ -959,7 +983,7 @@ func init() {
 	})
 	register(&property{
 		Meta: propertyMeta{
-			ID: "C12",
+			ID:          "C12",
 			Explanation: "(C12-BRACKET) Group is a save/extend/run/restore bracket on exactly currentGroupPrefix and currentGroupHandlers: the value loaded before any store is stored back on every path from the callback to return, nothing overwrites it afterwards, the scope is extended only before the callback, no other Router field is written, and only Group/Use write the scope fields. (C12-EXTEND) new prefix = previous + formatPath(prefix); new list = previous ++ middles (C04-SEQ shapes). (C12-COPY) the chain stored into a route from the group list is freshly allocated (E-SEQ alias bit through combineHandlers' body), so later Use calls, sibling groups and the restore cannot affect registered routes. (C12-USE) Use extends the group list iff the prefix is non-empty. (C12-VIA) Controller and Resource register only inside the function literal passed to Group.",
 			NotDecided:  []string{"a panic inside the callback leaves the scope extended (no defer; outside the property's quantifier)", "reachability 'exactly under the concatenated prefixes' as a string fact (C11)"},
 			Assumptions: []string{"registration is single-threaded"},
